@@ -174,7 +174,7 @@ def run_seq_property(pid, tier, seed, extra_cases=None, level="proof", ncases=No
         xc = None
         if pid in ("C01", "C02", "C11") and not viol_count:
             small = [c for c in cases if len(c["ops"]) <= 160 and c["order"] <= 16][:40 if tier == "quick" else 400]
-            xn, xops, xmism, xerr = crosscheck.run(small, go, tmp, limit_ops=4000 if tier == "quick" else 40000)
+            xn, xops, xmism, xerr = crosscheck.run(small, go, tmp, limit_ops=4000 if tier == "quick" else 40000, drop_kinds=("C" if pid == "C01" else ""))
             xc = dict(cases=xn, ops=xops, mismatches=xmism, error=xerr)
             if xerr or xmism:
                 common.violation(pid, dict(kind="seq", correspondence="in-Coq (vm_compute) evaluation of the model vs the implementation's observations",
